@@ -440,6 +440,18 @@ def opRanks : P String := do
   let labels ← pMany n pNat
   pure (join ((List.range n).map (fun r => toString (Spectral.rankInLabel labels r))))
 
+/-- `radii <n> <m> (j k mu d)*` → `log(1e-8 + ro/mu_sum)` per vertex -/
+def opRadii : P String := do
+  let n ← pNat
+  let m ← pNat
+  let es ← pMany m (do let j ← pNat; let k ← pNat; let mu ← pFloat; let d ← pFloat; pure (j, k, mu, d))
+  pure (join ((List.range n).map (fun i => fb (Radii.radius floatT 1e-8 es i))))
+
+/-- `densflag <densmap 0/1> <lambda> <frac> <N>` → the flag for n = 0..N-1 -/
+def opDensFlag : P String := do
+  let dm ← pNat; let lam ← pFloat; let fr ← pFloat; let N ← pNat
+  pure (join ((List.range N).map (fun n => if Sgd.densmapFlag (dm == 1) lam fr n N then "1" else "0")))
+
 def dispatch (op : String) : P String :=
   match op with
   | "knn" => opKnn
@@ -452,6 +464,8 @@ def dispatch (op : String) : P String :=
   | "smetric" => opSMetric
   | "grad" => opGrad
   | "heap" => opHeap
+  | "radii" => opRadii
+  | "densflag" => opDensFlag
   | "laplacian" => opLaplacian
   | "select" => opSelect
   | "ranks" => opRanks
